@@ -86,6 +86,12 @@ MUTANTS = [
  ("c18-untrusted-not-stored", ["C18"], L+"crypto/certificate_store.rs", "                    let _ = self.store_rejected_cert(cert);\n                    return StatusCode::BadCertificateUntrusted;", "                    return StatusCode::BadCertificateUntrusted;"),
  ("c18-uri-ignored-when-host-given", ["C18"], L+"crypto/certificate_store.rs", "            if let Some(application_uri) = application_uri {", "            if let Some(application_uri) = application_uri.filter(|_| hostname.is_none()) {"),
  ("c18-missing-file-is-match", ["C18"], L+"crypto/certificate_store.rs", "                    // No cert2 to compare to\n                    false", "                    // No cert2 to compare to\n                    true"),
+ ("c35-timeout-not-removed", ["C35"], L+"client/transport/core.rs", "        for id in timed_out {\n            if let Some(state) = self.message_states.remove(&id) {", "        for id in timed_out {\n            if let Some(state) = self.message_states.remove(&id).filter(|_| id % 2 == 0) {"),
+ ("c35-unknown-response-is-error", ["C35"], L+"client/transport/core.rs", "        let Some(message_state) = self.message_states.get_mut(&req_id) else {\n            return Ok(());\n        };", "        let Some(message_state) = self.message_states.get_mut(&req_id) else {\n            return Err(StatusCode::BadUnexpectedError);\n        };"),
+ ("c35-close-forgets-pending", ["C35"], L+"client/transport/core.rs", "        for (_, pending) in self.message_states.drain() {\n            let _ = pending.callback.send(Err(request_status));\n        }", "        for (_, pending) in self.message_states.drain() {\n            std::mem::forget(pending.callback);\n        }"),
+ ("c35-timeout-early", ["C35"], L+"client/transport/core.rs", "            if state.deadline <= now {", "            if state.deadline <= now + std::time::Duration::from_millis(8) {"),
+ ("c35-any-pending-gets-response", ["C35"], L+"client/transport/core.rs", "        let Some(message_state) = self.message_states.get_mut(&req_id) else {\n            return Ok(());\n        };", "        let req_id = if self.message_states.contains_key(&req_id) { req_id } else { self.message_states.keys().next().cloned().unwrap_or(req_id) };\n        let Some(message_state) = self.message_states.get_mut(&req_id) else {\n            return Ok(());\n        };"),
+ ("c35-abort-ignored", ["C35"], L+"client/transport/core.rs", "                let message_state = self.message_states.remove(&req_id).unwrap();\n                let _ = message_state\n                    .callback\n                    .send(Err(StatusCode::BadCommunicationError));", "                let _ = req_id;"),
  ("c09-remove-size-check", ["C09"], L+"core/comms/secure_channel.rs", "            if message_size < encrypted_data_offset + signature_size {", "            if false && message_size < encrypted_data_offset + signature_size {"),
 ]
 
